@@ -35,6 +35,9 @@ func profiles(prop string) []hist.Profile {
 				Retentions: []time.Duration{0, hour, 10 * min}, Keys: []string{"", "", "k1", "k2"}, W: weights(nil)},
 			{Name: "loss-long", Ops: 220, Topics: 2, Subs: 3, POrdered: 0.3, PFilter: 0.3, PDL: 0.2, PRetry: 0.5,
 				Keys: []string{"", "k1"}, W: weights(map[string]int{"job": 12, "bad": 6})},
+			{Name: "loss-idle-subscriptions", Ops: 100, Topics: 2, Subs: 4, POrdered: 0.2, PFilter: 0.2, PDL: 0.1, PRetry: 0.5,
+				TTLs: []time.Duration{min, 10 * min, hour}, Retentions: []time.Duration{0, hour}, Keys: []string{"", "k1"},
+				W: weights(map[string]int{"jump": 18, "expire-job": 2, "update-ttl": 2, "create-sub": 4, "seek-time": 1, "snapshot": 0, "seek-snapshot": 0})},
 			{Name: "loss-shared-topic", Ops: 110, Topics: 1, Subs: 4, POrdered: 0.2, PFilter: 0.2, PDL: 0, PRetry: 0.5,
 				Keys: []string{"", "k1"}, W: weights(map[string]int{"ack": 20, "snapshot": 6, "seek-snapshot": 8, "seek-time": 6, "delete-topic": 0, "delete-sub": 2, "create-sub": 3})},
 		}
